@@ -18,13 +18,14 @@ Definition seq_runs {D} (run : D -> list N -> list (option N) * outcome D) (d : 
   | _ => (ta, fa)
   end.
 
-Theorem b64_chunk_independent a b d : b64_run d (a ++ b) = seq_runs b64_run d a b.
+Theorem b64_chunk_independent sticky a b d :
+  b64_run_with sticky d (a ++ b) = seq_runs (b64_run_with sticky) d a b.
 Proof.
   unfold seq_runs. revert d. induction a as [|ch r IH]; intros d.
-  - cbn [app b64_run]. destruct (b64_run d b); reflexivity.
-  - cbn [app b64_run]. destruct (b64_push d ch) as [[d' res]|e|p|]; try reflexivity.
-    rewrite IH. destruct (b64_run d' r) as [ta fa]. destruct fa as [d''|e|p|]; try reflexivity.
-    destruct (b64_run d'' b); reflexivity.
+  - cbn [app b64_run_with]. destruct (b64_run_with sticky d b); reflexivity.
+  - cbn [app b64_run_with]. destruct (b64_push_with sticky d ch) as [[d' res]|e|p|]; try reflexivity.
+    rewrite IH. destruct (b64_run_with sticky d' r) as [ta fa]. destruct fa as [d''|e|p|]; try reflexivity.
+    destruct (b64_run_with sticky d'' b); reflexivity.
 Qed.
 
 Theorem b32_chunk_independent a b d : b32_run d (a ++ b) = seq_runs b32_run d a b.
@@ -113,21 +114,32 @@ Example chunking_examples :
   b64_convert [[90; 109]; []; [57]; [118]] = Ok [102; 111; 111] /\
   b64_convert [[90; 109; 57; 118]] = Ok [102; 111; 111] /\
   b32_convert [[67]; [79]] = Ok [102] /\ b16_convert [[70]; [48; 48]; [102]] = Ok [240; 15] /\
-  fst (b64_run b64_new [90; 103; 61; 61; 65]) = [None; None; None; None; Some E_TRAILING].
+  fst (b64_run b64_new [90; 103; 61; 61; 65]) = [None; None; None; None; Some E_TRAILING] /\
+  fst (b64_run_with true b64_new [33; 65]) = [Some (E_illegal 33); Some (E_illegal 33)].
 Proof. vm_compute. repeat split. Qed.
+
+Lemma run_cons64 d ch r :
+  b64_run d (ch :: r) =
+  match b64_push_char d ch with
+  | Ok (d', res) => let '(tr, fin) := b64_run d' r in (res :: tr, fin)
+  | Err e => ([], Err e)
+  | Panic p => ([], Panic p)
+  | OutOfFuel => ([], OutOfFuel)
+  end.
+Proof. reflexivity. Qed.
 
 (* ------------------------------------------ base64 per-push API: defects *)
 
 (* (a) pushing on after an in-group TrailingInput error indexes buf[4] *)
 Theorem b64_api_total_refuted :
-  exists s, snd (b64_push_all s) = Panic 2 /\
-            fst (b64_push_all s) = [None; None; None; Some E_TRAILING].
+  exists s, snd (b64_push_all_cur s) = Panic 2 /\
+            fst (b64_push_all_cur s) = [None; None; None; Some E_TRAILING].
 Proof. exists [90; 103; 61; 97; 98]. vm_compute. auto. Qed.
 
 (* (b) an IllegalChar error is not recorded: later pushes and finalize succeed *)
 Theorem b64_errors_sticky_refuted :
-  exists s, fst (b64_push_all s) = [Some (E_illegal 33); None; None; None; None] /\
-            snd (b64_push_all s) = Ok [102; 111; 111].
+  exists s, fst (b64_push_all_cur s) = [Some (E_illegal 33); None; None; None; None] /\
+            snd (b64_push_all_cur s) = Ok [102; 111; 111].
 Proof. exists [33; 90; 109; 57; 118]. vm_compute. auto. Qed.
 
 Definition okerr (t : target) : Prop := match t with Ok _ | Err _ => True | _ => False end.
@@ -138,8 +150,8 @@ Lemma illegal_ne_trailing ch : E_illegal ch <> E_TRAILING.
 Proof. unfold E_illegal, E_TRAILING. lia. Qed.
 
 Lemma b64_push_cases d ch : d64_next d < 4 -> (exists acc, d64_target d = Ok acc) ->
-  exists d' res, b64_push d ch = Ok (d', res) /\
-    ((res = None /\ good64 d') \/
+  exists d' res, b64_push_char d ch = Ok (d', res) /\
+    ((res = None /\ good64 d' /\ exists acc', d64_target d' = Ok acc') \/
      (res = Some (E_illegal ch) /\ d' = d) \/
      (res = Some E_TRAILING /\ d64_next d' = 4 /\ okerr (d64_target d'))).
 Proof.
@@ -151,29 +163,29 @@ Proof.
     + eexists _, _. split; [reflexivity|]. right; left. auto.
     + eexists _, _. split; [reflexivity|]. right; left. auto.
     + rewrite cont_2. eexists _, _. split; [reflexivity|]. left. split; [reflexivity|].
-      left. cbn. split; [lia|eauto].
+      split; [left; cbn; split; [lia|eauto]|cbn; eauto].
     + rewrite cont_3. cbv zeta. cbn [N.eqb Pos.eqb negb].
-      eexists _, _. split; [reflexivity|]. left. split; [reflexivity|]. right. split; [reflexivity|exact I].
+      eexists _, _. split; [reflexivity|]. left. split; [reflexivity|]. split; [right; split; [reflexivity|exact I]|cbn; eauto].
   - rewrite b64_push_sem by (cbn; auto; lia).
     destruct (val64 ch) as [v|] eqn:V.
     2:{ eexists _, _. split; [reflexivity|]. right; left. auto. }
     pose proof (val64_lt _ _ V) as Lv.
     destruct C as [-> | [-> | [-> | ->]]].
     + rewrite cont_0. eexists _, _. split; [reflexivity|]. left. split; [reflexivity|].
-      left. cbn. split; [lia|eauto].
+      split; [left; cbn; split; [lia|eauto]|cbn; eauto].
     + rewrite cont_1. eexists _, _. split; [reflexivity|]. left. split; [reflexivity|].
-      left. cbn. split; [lia|eauto].
+      split; [left; cbn; split; [lia|eauto]|cbn; eauto].
     + rewrite cont_2. eexists _, _. split; [reflexivity|]. left. split; [reflexivity|].
-      left. cbn. split; [lia|eauto].
+      split; [left; cbn; split; [lia|eauto]|cbn; eauto].
     + rewrite cont_3. cbv zeta. rewrite (ne128 v Lv). cbn [negb].
       destruct (x2 =? 128).
       * eexists _, _. split; [reflexivity|]. right; right. cbn. auto.
       * eexists _, _. split; [reflexivity|]. left. split; [reflexivity|].
-        left. cbn. split; [lia|eauto].
+        split; [left; cbn; split; [lia|eauto]|cbn; eauto].
 Qed.
 
 Lemma b64_push_at_eof d ch : d64_next d = 240 ->
-  b64_push d ch = Ok (mk64 (d64_buf d) 240 (Err E_TRAILING), Some E_TRAILING).
+  b64_push_char d ch = Ok (mk64 (d64_buf d) 240 (Err E_TRAILING), Some E_TRAILING).
 Proof.
   intros H. rewrite b64_push_unfold, H. reflexivity.
 Qed.
@@ -186,10 +198,10 @@ Lemma b64_run_good s : forall d, good64 d ->
 Proof.
   induction s as [|ch r IH]; intros d G NT.
   - cbn. eauto.
-  - cbn [b64_run] in *. destruct G as [[Hn Ht]|[He _]].
+  - rewrite run_cons64 in *. destruct G as [[Hn Ht]|[He _]].
     + destruct (b64_push_cases d ch Hn Ht) as (d' & res & E & C). rewrite E in *.
       destruct (b64_run d' r) as [tr fin] eqn:R. cbn [fst snd] in *.
-      destruct C as [[-> G']|[[-> ->]|[-> _]]].
+      destruct C as [[-> [G' _]]|[[-> ->]|[-> _]]].
       * specialize (IH d' G'). rewrite R in IH. apply IH. intros I. apply NT. right. exact I.
       * specialize (IH d (or_introl (conj Hn Ht))). rewrite R in IH. apply IH.
         intros I. apply NT. right. exact I.
@@ -210,16 +222,16 @@ Proof.
 Qed.
 
 Lemma push_all_snd64 s :
-  snd (b64_push_all s) =
+  snd (b64_push_all_cur s) =
   match snd (b64_run b64_new s) with
   | Ok d => match b64_finalize d with
             | Ok l => Ok l | Err e => Err e | Panic p => Panic p | OutOfFuel => OutOfFuel end
   | Err e => Panic 0 | Panic p => Panic p | OutOfFuel => OutOfFuel end
-  /\ fst (b64_push_all s) = fst (b64_run b64_new s).
-Proof. unfold b64_push_all. destruct (b64_run b64_new s). split; reflexivity. Qed.
+  /\ fst (b64_push_all_cur s) = fst (b64_run b64_new s).
+Proof. unfold b64_push_all_cur, b64_push_all_with. fold b64_run. destruct (b64_run b64_new s). split; reflexivity. Qed.
 
 Theorem b64_api_total_restricted s :
-  ~ In (Some E_TRAILING) (fst (b64_push_all s)) -> no_panic (snd (b64_push_all s)).
+  ~ In (Some E_TRAILING) (fst (b64_push_all_cur s)) -> no_panic (snd (b64_push_all_cur s)).
 Proof.
   destruct (push_all_snd64 s) as [E1 E2]. rewrite E1, E2. intros NT.
   destruct (b64_run_good s b64_new good64_new NT) as (d' & R & G). rewrite R.
@@ -234,7 +246,7 @@ Definition bad64 (d : dec64) : Prop :=
   (d64_next d = 240 /\ d64_target d = Err E_TRAILING) \/ (d64_next d = 4 /\ okerr (d64_target d)).
 
 Lemma b64_push_at_4 d ch : d64_next d = 4 ->
-  b64_push d ch = Panic 2 \/ b64_push d ch = Ok (d, Some (E_illegal ch)).
+  b64_push_char d ch = Panic 2 \/ b64_push_char d ch = Ok (d, Some (E_illegal ch)).
 Proof.
   destruct d as [[[[x0 x1] x2] x3] n t]. cbn [d64_next]. intros ->.
   destruct (N.eq_dec ch 61) as [->|Hc].
@@ -253,7 +265,7 @@ Lemma b64_run_bad s : forall d, bad64 d -> all_trailing (fst (b64_run d s)) ->
 Proof.
   induction s as [|ch r IH]; intros d B AT.
   - cbn. auto.
-  - cbn [b64_run] in *. destruct B as [[Hn Ht]|[Hn Ht]].
+  - rewrite run_cons64 in *. destruct B as [[Hn Ht]|[Hn Ht]].
     + rewrite (b64_push_at_eof d ch Hn) in *.
       specialize (IH (mk64 (d64_buf d) 240 (Err E_TRAILING)) (or_introl (conj eq_refl eq_refl))).
       destruct (b64_run _ r) as [tr fin]. cbn [fst snd] in *.
@@ -277,9 +289,9 @@ Lemma b64_run_sticky s : forall d, good64 d -> all_trailing (fst (b64_run d s)) 
 Proof.
   induction s as [|ch r IH]; intros d G AT [e0 I0].
   - cbn in I0. contradiction.
-  - cbn [b64_run] in *. destruct G as [[Hn Ht]|[He Ht]].
+  - rewrite run_cons64 in *. destruct G as [[Hn Ht]|[He Ht]].
     + destruct (b64_push_cases d ch Hn Ht) as (d' & res & E & C). rewrite E in *.
-      destruct C as [[-> G']|[[-> ->]|[-> [N4 OE]]]].
+      destruct C as [[-> [G' _]]|[[-> ->]|[-> [N4 OE]]]].
       * specialize (IH d' G'). destruct (b64_run d' r) as [tr fin]. cbn [fst snd] in *.
         apply IH.
         -- intros e I. apply AT. right. exact I.
@@ -306,9 +318,9 @@ Proof.
 Qed.
 
 Theorem b64_errors_sticky_restricted s :
-  all_trailing (fst (b64_push_all s)) ->
-  (exists e, In (Some e) (fst (b64_push_all s))) ->
-  forall l, snd (b64_push_all s) <> Ok l.
+  all_trailing (fst (b64_push_all_cur s)) ->
+  (exists e, In (Some e) (fst (b64_push_all_cur s))) ->
+  forall l, snd (b64_push_all_cur s) <> Ok l.
 Proof.
   destruct (push_all_snd64 s) as [E1 E2]. rewrite E1, E2. intros AT EX l.
   pose proof (b64_run_sticky s b64_new good64_new AT EX) as H.
@@ -317,7 +329,7 @@ Proof.
 Qed.
 
 Example b64_sticky_nonvacuous :
-  b64_push_all [90; 103; 61; 61; 65; 65] =
+  b64_push_all_cur [90; 103; 61; 61; 65; 65] =
     ([None; None; None; None; Some E_TRAILING; Some E_TRAILING], Err E_TRAILING) /\
-  b64_push_all [90; 103; 61; 97] = ([None; None; None; Some E_TRAILING], Err E_SHORT).
+  b64_push_all_cur [90; 103; 61; 97] = ([None; None; None; Some E_TRAILING], Err E_SHORT).
 Proof. vm_compute. auto. Qed.
